@@ -163,7 +163,55 @@ def generic_union_members(out):
     return n
 
 
+def members_left_of_none(out):
+    """a union that lists None AFTER a member which itself accepts null: the left-most accepting member wins for None as for any
+    other value (an enum with a None-valued member, Any, a nested Optional, a literal None, a user converter mapping null)"""
+    import enum
+    import typing as t
+    import pane
+    n = 0
+
+    class Level(enum.Enum):
+        UNSET = None
+        LOW = 1
+
+    class Box(pane.PaneBase):
+        v: t.Optional[Level] = Level.LOW
+        vs: t.List[t.Optional[Level]] = pane.field(default_factory=list)
+    cases = [
+        ('Optional[Level] (Level.UNSET = None)', t.Optional[Level], None, Level.UNSET), ('Union[Level, None, int]', t.Union[Level, None, int], None, Level.UNSET),
+        ('Union[None, Level]', t.Union[None, Level], None, None), ('Optional[Level] with 1', t.Optional[Level], 1, Level.LOW),
+        ('List[Optional[Level]]', t.List[t.Optional[Level]], [None, 1, None], [Level.UNSET, Level.LOW, Level.UNSET]),
+        ('Dict[str, Optional[Level]]', t.Dict[str, t.Optional[Level]], {'k': None}, {'k': Level.UNSET}),
+        ('dataclass field Optional[Level]', Box, {'v': None, 'vs': [None]}, Box(Level.UNSET, [Level.UNSET])),
+        ('Union[Literal[None], None, int]', t.Union[t.Literal[None], None, int], None, None),
+        ('Union[Any, None]', t.Union[t.Any, None], None, None),
+    ]
+    with warnings.catch_warnings():
+        warnings.simplefilter('ignore')
+        for label, ty, v, want in cases:
+            n += 1
+            try:
+                r = pane.from_data(v, ty)
+            except Exception as e:
+                out.violation(f'C11:member-left-of-None:{type(e).__name__}', f'{label}: from_data({v!r}) raised {type(e).__name__}: {str(e)[:150]}', {'case': label})
+                continue
+            if r != want or type(r) is not type(want) or repr(r) != repr(want):
+                out.violation('C11:member-left-of-None', f'{label}: from_data({v!r}) gave {r!r}; the left-most member that accepts the value gives {want!r}', {'case': label, 'value': repr(v)})
+            # and back: the value is written by the left-most member that accepts it
+            try:
+                d = pane.into_data(want, ty)
+                if pane.from_data(d, ty) != want:
+                    out.violation('C11:member-left-of-None:serialised', f'{label}: {want!r} is written as {d!r}, which reads back as {pane.from_data(d, ty)!r}', {'case': label})
+            except Exception as e:
+                out.violation(f'C11:member-left-of-None:into_data:{type(e).__name__}', f'{label}: into_data({want!r}) raised {type(e).__name__}: {str(e)[:150]}', {'case': label})
+    return n
+
+
 def run(ctx, out):
+    out.evaluations += members_left_of_none(out)
+    import families as _famgp
+    out.evaluations += _famgp.generic_parameter_twins(out, PROP)
     import families as _fam
     out.evaluations += _fam.same_class_union_serialisation(out, PROP)
     out.rule = ('unions at top level and nested, 50% drawn from overlap families (int/float/bool/complex, list/tuple, str/Literal, '
